@@ -10,6 +10,8 @@ from sa.guards import GuardView, atom_of, names_in
 from sa.index import own_nodes
 from sa.report import Ctx
 
+from .common import generic_sweeps
+
 from .graph_common import neighbor_loops, node_derived_sets, node_universe_filtered, symmetrised_before_use
 from .sat_common import _enclosing_block
 
@@ -174,6 +176,7 @@ def run(ctx: Ctx):
     ctx.ob("C15-O4", "R18 table", pr, "scores start uniform; update = (1-d)/n + d * incoming share + d * dangling mass / n", "{v: 1.0 / n for v in node_list}" in t and "base_score = (1.0 - damping) / n" in t and "dangling_contrib = damping * dangling_sum / n" in t and "new_scores[v] = base_score + damping * rank_sum + dangling_contrib" in t, "", node=pr.node)
     ctx.ob("C15-O4", "R18 table", pr, "dangling nodes are those without counted out-edges; shares divide by the counted out-degree", "if outgoing_count[v] == 0" in t and "scores[u] / outgoing_count[u] for u in incoming[v]" in t and "outgoing_count[v] += 1" in t, "", node=pr.node)
     ctx.ob("C15-O4", "R18 table", pr, "stopping rule is the L-infinity change of the new scores", "max_diff = max(max_diff, abs(new_scores[v] - scores[v]))" in t and "max_diff = 0.0" in t, "", node=pr.node)
+    generic_sweeps(ctx)
 
 
 # ---------------------------------------------------------------------------------------------
